@@ -339,7 +339,32 @@ def gen_program(rng, nfuncs=None, depth=None, nfiles=None, twins=True, twin_mode
         for j, suf in enumerate(['u', 'v'][:ntwins - 1]):
             en = twin[0][:-1] + suf
             extra.append((en, twin[1], twin[2], [twin[3][0].replace(twin[0] + '(', en + '(', 1)] + twin[3][1:]))
-    allf = list(funcs) + ([twin] if twin else []) + extra
+    # compact functions: executable code on the line of the `def` / `lambda` keyword itself (one-line definitions, lambdas,
+    # a lambda spread over several lines); drawn from a forked generator so that the rest of the program is unchanged
+    compact = []
+    r2 = rng.fork('compact')
+    if r2.chance(3, 5):
+        for j in range(r2.below(3) + 1):
+            cn = 'c%d' % j
+            sty = r2.below(5)
+            k = r2.below(5) + 1
+            if sty == 0:
+                cl = ['def %s(n): return n * %d + 1' % (cn, k)]
+            elif sty == 1:
+                cl = ['def %s(n): return 1 if n <= 0 else n + %s(n - 1)' % (cn, cn)]
+                feats.add('recursion')
+            elif sty == 2:
+                cl = ['%s = lambda n: n + %d' % (cn, k)]
+            elif sty == 3:
+                cl = ['%s = (lambda n:' % cn,
+                      '      sum([i for i in range(n %% %d)])' % (k + 1),
+                      '      + (%s(n - 1) if n > 0 else 0))' % cn]
+                feats.add('recursion')
+            else:
+                cl = ['def %s(n): a = n + %d; a *= 2; return a' % (cn, k)]
+            feats.add('compact')
+            compact.append((cn, 'plain', False, cl))
+    allf = list(funcs) + ([twin] if twin else []) + extra + compact
     chunks = [[] for _ in range(nfiles)]
     for i, f in enumerate(allf):
         k = 0 if nfiles == 1 else rng.below(nfiles)
